@@ -53,7 +53,8 @@ Expected(e) == LET b == Fn(e.before) al == Alloc(b, e.id, e.via) IN IF al = NoAd
 TInit == Init /\ tid \in 1..Len(Traces) /\ l = 1 /\ verdict = <<"ok", "">> /\ drift = 0
 Step == /\ verdict[1] = "ok" /\ l <= Len(Tr) /\ l' = l + 1 /\ tid' = tid /\ UNCHANGED vars
         /\ LET e == Tr[l] IN
-           /\ verdict' = CASE e.op = "req" -> ReqClause(e) [] e.op = "rel" -> RelClause(e)
+           /\ verdict' = CASE e.op = "hang" -> <<"C15.Bounded", "the master's update() did not return (virtual-time watchdog)">>
+                             [] e.op = "req" -> ReqClause(e) [] e.op = "rel" -> RelClause(e)
                            [] e.op = "saveload" -> SaveLoadClause(e)
                            [] e.op = "save" -> <<"ok", "">> [] e.op = "load" -> LoadClause(e)
            /\ drift' = IF e.op = "req" /\ At(Fn(e.after), e.id) # Expected(e) THEN drift + 1 ELSE drift
